@@ -42,4 +42,5 @@ const (
 	vpqCloseStore   = 17
 	vpqCloseSpin    = 18
 	vpqShardLockSpn = 19
+	vpqDeal         = 20
 )
